@@ -78,12 +78,19 @@ def oracle_c02(series, nii, order):
                 if not all(0 <= a < b for a, b in zip(full, data.shape)):
                     fails.append('patient position of pixel (%d,%d) of file %d falls outside the array (index %s)' % (rr, cc, f['id'], full))
                     return fails
-                if int(data[full]) != int(pix[rr, cc]):
-                    fails.append('voxel %s holds %s, source pixel (%d,%d) of file %d is %s' % (full, data[full], rr, cc, f['id'], pix[rr, cc]))
+                want = pix[rr, cc]
+                if series.get('rescale'):
+                    want = float(pix[rr, cc]) * series['rescale'][0] + series['rescale'][1]     # exact in binary64
+                if float(data[full]) != float(want):
+                    fails.append('voxel %s holds %s, source pixel (%d,%d) of file %d is %s%s' % (
+                        full, data[full], rr, cc, f['id'], pix[rr, cc],
+                        ' (rescaled: %s)' % want if series.get('rescale') else ''))
                     return fails
                 hit[full] += 1
     if not (hit == 1).all():
         fails.append('not every output voxel comes from exactly one source pixel')
+    if series.get('rescale'):
+        return fails          # the data type of rescaled data is nibabel's (binary64); the values were compared exactly
     # dtype rule
     exp_dtype = np.int16 if (series.get('signed') or series.get('bits_stored', 16) < 16) else np.uint16
     if series.get('bits_mix'):
@@ -380,7 +387,7 @@ def _conv_round(rep, pid, r, tier, hreqs, hmeta):
             series = G.gen_series(r, tier, S=r.choice([2, 3]), T=r.choice([3, 3, 2]), V=r.choice([1, 1, 2]),
                                   acq='one_inconsistent')
         else:
-            series = G.gen_series(r, tier, meta_modes=(pid == 'C02'))
+            series = G.gen_series(r, tier, meta_modes=(pid == 'C02'), rescale=(pid == 'C02'))
         order_files = list(range(len(series['files'])))
         r.shuffle(order_files)
         try:
@@ -667,6 +674,39 @@ def grid_round(rep, r, tier):
                             {'tag': 'grid:add-state:' + name, 'suite': 'grid', 'series': series, 'probe': name})
             if got == 'ok':
                 st, _ = G.new_stack(series)
+    # ---- congruence is judged against the stack (its first file), not against the file added last: a series whose
+    # spacing / orientation drifts in steps inside the tolerance, the third file outside it relative to the first
+    for ci in range({'quick': 8, 'thorough': 80}[tier]):
+        import dcmstack
+        series = G.gen_series(r, tier, S=3, T=1, V=1, ordering='explicit', orient=r.choice(list(G.synth.ORIENTS)))
+        kind = r.choice(['spacing', 'orient'])
+        fl = series['files']
+        if kind == 'spacing':
+            s0 = series['spacing'][0]
+            tol = 5e-5 + 1e-5 * s0
+            overs = [dict(), dict(spacing=[s0 + 0.8 * tol, series['spacing'][1]]), dict(spacing=[s0 + 1.6 * tol, series['spacing'][1]])]
+        else:
+            iop = np.array(series['iop'], dtype=float)
+            j = int(np.argmin(np.abs(iop[:3])))           # a zero component of the row cosine
+            step = np.zeros(6); step[j] = 0.8 * 5e-5
+            overs = [dict(), dict(iop=list(iop + step)), dict(iop=list(iop + 2 * step))]
+        st = dcmstack.DicomStack(**G.orders_of(series))
+        outs = []
+        for f, over in zip(fl, overs):
+            try:
+                with warnings.catch_warnings():
+                    warnings.simplefilter('ignore')
+                    st.add_dcm(G.dataset_of(series, f, **over))
+                outs.append('ok')
+            except Exception as e:
+                outs.append(type(e).__name__)
+        rep.evaluations += 1
+        rep.count('add/drift_' + kind)
+        rep.nontriv([ci, 'add', 'drift', kind, series['orient']])
+        if outs != ['ok', 'ok', 'IncongruentImageError']:
+            rep.failure('%s drifting in steps of 0.8 of the tolerance: add_dcm gave %s, the third file (1.6 tolerances from the first) '
+                        'must be refused as incongruent with the stack' % (kind, outs),
+                        {'tag': 'grid:add:drift-' + kind, 'suite': 'grid', 'series': series, 'overs': [str(o) for o in overs]})
     # ---- explicit ordering whose element is absent from the files (ordinate None): a second file for
     # an occupied cell is still refused
     for ci in range({'quick': 6, 'thorough': 60}[tier]):
